@@ -104,6 +104,40 @@ def op_mk_tt(w, ins):
 ops.register('mk_tt', op_mk_tt, 'C02')
 
 
+def op_inflate(w, ins):
+    """A manager that has been used for a while: node numbers well above 256
+    are in use (CPython shares small integers only, tables have been resized,
+    the numbering has holes after the next collection).  Random functions are
+    built through the public interface and let go at once; what remains is
+    garbage until something collects it."""
+    import random
+    m = ins.get('m', 0)
+    g = w.mgrs[m]
+    dec = sorted(declared(w, m))
+    if len(dec) < 4:
+        return 'skip'
+    rr = random.Random(ins['seed'])
+    target = ins.get('target', 300)
+    tries = 0
+    while len(g.raw) < target and tries < 200:
+        tries += 1
+        ks = rr.sample(dec, min(len(dec), rr.choice([4, 5, 5, 6])))
+        terms = []
+        for _ in range(rr.randint(3, 8)):
+            lits = [(w.names[k] if rr.random() < 0.5 else '~ ' + w.names[k]) for k in ks if rr.random() < 0.8]
+            terms.append('(' + ' /\\ '.join(lits) + ')' if lits else 'TRUE')
+        ok, v = call(w, g.api.add_expr, ' ^ '.join(terms))
+        if not ok:
+            w.fail('exception:' + v[0], f'add_expr of a valid formula raised {v[1]}', ops.owner_tags(w, 'C05'))
+        del v
+    w.touch()
+    w.stats['inflate'] += 1
+    w.stats['inflate_reached'] += int(len(g.raw) >= target)
+
+
+ops.register('inflate', op_inflate, 'C02')
+
+
 def gen_mk_tt(w, r, cfg):
     """A handle on a random function of 2-5 declared names (random
     workloads: operands that are not just variables)."""
